@@ -332,6 +332,25 @@ def run(ctx):
             ((("1", 5), ("nameSize", 1)), None, (("dataSize", 1),))]
     ok = len(writes) == 4 and all(w[0] == x[0] and (x[1] is None or w[1] == x[1]) and w[2] == x[2] for w, x in zip(writes, want))
     r.check(ok, "BuildKey(kind,name,data)|layout", "%s" % [w[0] for w in writes], "constructor writes %s" % writes, c3)
+    # the payload of a two-part key is read back raw (everything after the name): what the constructor writes for a byte-string payload must be
+    # the bytes alone.  Which `write` overload `encoder.write(data)` resolves to decides that — a new non-template overload that adds a length
+    # prefix silently wins over the generic template.
+    from sa.callgraph import CallGraph
+    cg15 = CallGraph(prog)
+    for c3x in ctors:
+        ptype = c3x.db_types[c3x.params[2]["t"]]
+        if "StringRef" not in ptype and "basic_string" not in ptype:
+            continue
+        wc = [c for c in c3x.calls() if (c.get("fn") or "").endswith("BinaryEncoder::write") and c.get("fk")]
+        if len(wc) != 1:
+            raise AnalysisBroken("BuildKey(kind,name,%s): %d encoder.write calls" % (ptype, len(wc)))
+        reach = cg15.reachable_from(wc[0]["fk"])
+        prefixed = [k_ for k_ in reach if k_ in prog.functions and prog.functions[k_].name.endswith("BinaryEncoder::write") and prog.functions[k_].params and
+                    prog.functions[k_].db_types[prog.functions[k_].params[0]["ct"]] in ("unsigned int", "unsigned long", "unsigned short", "unsigned char") and k_ != wc[0]["fk"]]
+        raw = [k_ for k_ in reach if k_ in prog.functions and prog.functions[k_].name.endswith("BinaryEncoder::writeBytes")]
+        r.check(bool(raw) and not prefixed, "BuildKey(kind,name,%s)|payload-raw" % ptype.replace("const ", "").replace(" &", ""), "", "the byte-string payload of a two-part key is written "
+                "through %s, which also writes %s: the accessor reads the payload back raw, so it now starts with the prefix" % (
+                    wc[0]["fk"].split("(")[0].split("::")[-1] + "(" + wc[0]["fk"].split("(", 1)[1][:40], "an integer (a length prefix)" if prefixed else "no bytes at all"), c3x, wc[0])
     name_acc = ["getCustomTaskName", "getDirectoryTreeSignaturePath", "getFilteredDirectoryPath"]
     data_acc = ["getCustomTaskData", "getContentExclusionPatterns"]
     for nm in name_acc + data_acc:
@@ -646,4 +665,7 @@ VARIANTS = [
     dict(name="empty-list-gets-length-one", file="include/llbuild/Basic/StringList.h", old="    // Make sure to allocate at least 1 byte.\n    char* p = nullptr;\n    contents = p = new char[size + 1];",
          new="    // Make sure to allocate at least 1 byte.\n    if (size == 0)\n      size = 1;\n    char* p = nullptr;\n    contents = p = new char[size + 1];", expect=("R-STRINGLIST-SIZE", "size")),
     dict(name="benign-allocation-size-named", file="include/llbuild/Basic/StringList.h", old="    char* p = nullptr;\n    contents = p = new char[size + 1];", new="    const uint64_t allocated = size + 1;\n    char* p = nullptr;\n    contents = p = new char[allocated];", expect=None),
+    dict(name="length-prefixing-write-overload-for-string-refs", file="include/llbuild/Basic/BinaryCoding.h", old="  void write(const std::string& value) {\n    uint32_t size = uint32_t(value.size());\n    assert(size == value.size());\n    write(size);\n    writeBytes(StringRef(value));\n  }",
+         new="  void write(const std::string& value) {\n    write(StringRef(value));\n  }\n\n  void write(StringRef value) {\n    uint32_t size = uint32_t(value.size());\n    assert(size == value.size());\n    write(size);\n    writeBytes(value);\n  }",
+         expect=("R-KEY-LAYOUT", "payload-raw")),
 ]
